@@ -330,3 +330,9 @@ package util
 //@   trusted "NewTicker returns a fresh ticker (a non-positive duration panics: not modelled, rates come from defaults)"
 //@ iface (ctx context.Context).Done() (ch <-chan struct{})
 //@   trusted "any channel"
+
+// ---- helpers of the start-up path (C15) --------------------------------------------------------------------
+//@ opaque func InterpolateLinearlyInt
+//@   ensures result != nil
+//@   modifies nothing
+//@   trusted "builds a new map from the given one; touches no device or ghost state (body not verified: its callee needs step preconditions that this caller meets only for the literal {0:0, 255:255})"
